@@ -160,6 +160,28 @@ impl ConnectionHandle {
     }
 }
 
+/// Verification hook: observes whether the command channel still has a strong sender.
+#[cfg(feature = "verif")]
+pub struct VerifAliveProbe(WeakSender<ProtocolCommand>);
+
+#[cfg(feature = "verif")]
+impl VerifAliveProbe {
+    pub fn alive(&self) -> bool {
+        self.0.upgrade().is_some()
+    }
+}
+
+#[cfg(feature = "verif")]
+impl ConnectionHandle {
+    /// Verification hook: a weak observer of this handle's command channel.
+    pub fn verif_alive_probe(&self) -> VerifAliveProbe {
+        match &self.connection {
+            ConnectionType::Active(active) => VerifAliveProbe(active.downgrade()),
+            ConnectionType::Inactive(inactive) => VerifAliveProbe(inactive.clone()),
+        }
+    }
+}
+
 /// Type which allows to keep the connection opened and not allow the keep-alive mechanism to close
 /// it.
 ///
